@@ -649,7 +649,10 @@ public:
 	[[nodiscard]] std::optional<CMsgPackReadBinaryScope<TReader>> OpenBinaryScope(size_t)
 	{
 		CheckEnd();
-		// The value is consumed in any case (it can be skipped according to policies)
+		// Leave a non-binary value for the fallback to OpenArrayScope(), which consumes it in any case (otherwise the next element would be lost)
+		if (mMsgPackReader->ReadValueType() != ValueType::BinaryArray) {
+			return std::nullopt;
+		}
 		size_t sz = 0;
 		const bool result = mMsgPackReader->ReadBinarySize(sz);
 		++mIndex;
@@ -926,6 +929,10 @@ public:
 
 	[[nodiscard]] std::optional<CMsgPackReadBinaryScope<IMsgPackReader>> OpenBinaryScope(size_t) const
 	{
+		// Leave a non-binary value for the fallback to OpenArrayScope() (otherwise it will try to read after the end of the document)
+		if (mMsgPackReader->ReadValueType() != ValueType::BinaryArray) {
+			return std::nullopt;
+		}
 		if (size_t sz = 0; mMsgPackReader->ReadBinarySize(sz)) {
 			return std::make_optional<CMsgPackReadBinaryScope<IMsgPackReader>>(sz, mMsgPackReader, GetContext());
 		}
